@@ -1,7 +1,8 @@
 import LunarVerif.Proofs.C06
 /-!
 Helper lemmas for C06, part 2: the ghost trace of every schedule without shutdown satisfies the
-observable predicates (V) `verdictOk` and (Q) `quotaOk` of `Spec/C06.lean`.
+observable predicates (V) `verdictOk`, (Q) `quotaOk` and `noPanic` of `Spec/C06.lean` (every schedule,
+shutdown included).
 -/
 namespace LunarVerif.C06
 
@@ -51,7 +52,7 @@ theorem wasRejected_cons (e : Ev) (tr : List Ev) (i : Nat) :
 
 local macro "tr_auto" : tactic =>
   `(tactic| (constructor <;> (try intro j) <;>
-      (try simp only [St.upd, St.emit, allRev, verdictOk, quotaOk, noPanic, wasDone_cons, wasChecked_cons, wasQueued_cons,
+      (try simp only [St.upd, St.emit, St.enq, allRev, verdictOk, quotaOk, noPanic, wasDone_cons, wasChecked_cons, wasQueued_cons,
         wasRejected_cons, lastQtry, Bool.or_eq_true, Bool.and_eq_true, beq_iff_eq, Bool.or_eq_false_iff,
         beq_eq_false_iff_ne, Bool.not_eq_true', Bool.false_or, Bool.true_and, Bool.and_true]) <;>
       grind [holdsL, holdsW, isReturned, isDraining]))
@@ -97,7 +98,7 @@ theorem invT_wake (s : St) (i : Nat) (hA : InvA s) (h : InvT s) : InvT (stepWake
 
 theorem invT_unwatch (s : St) (i : Nat) (hA : InvA s) (h : InvT s) : InvT (stepUnwatch s i) := by
   obtain ⟨tv, tq, tp, td, tc, tf, gt, pm⟩ := h
-  obtain ⟨nc, np, lp, own, excl, wg, dn, rt, rs, qk, gq, fresh⟩ := hA
+  obtain ⟨np, own, excl, wg, dn, rt, rs, qk, gq, fresh⟩ := hA
   have hret : isReturned (s.reqs i).pc = true → (s.reqs i).st = .processed := by
     intro h
     cases hp : (s.reqs i).pc <;> simp [isReturned, hp] at h
@@ -118,8 +119,7 @@ theorem invT_loopFire (s : St) (hA : InvA s) (h : InvT s) : InvT (stepLoopFire s
   obtain ⟨tv, tq, tp, td, tc, tf, gt, pm⟩ := h
   unfold stepLoopFire
   split
-  · rw [hA.nc]
-    tr_auto
+  · split <;> tr_auto
   · constructor <;> assumption
 
 theorem invT_scan (cfg : Cfg) (s : St) (h : InvT s) : InvT (stepScan cfg s) := by
@@ -131,7 +131,7 @@ theorem invT_scan (cfg : Cfg) (s : St) (h : InvT s) : InvT (stepScan cfg s) := b
 
 theorem invT_loop (cfg : Cfg) (s : St) (k : Nat) (hA : InvA s) (h : InvT s) : InvT (stepLoop cfg s k) := by
   obtain ⟨tv, tq, tp, td, tc, tf, gt, pm⟩ := h
-  obtain ⟨nc, np, lp, own, excl, wg, dn, rt, rs, qk, gq, fresh⟩ := hA
+  obtain ⟨np, own, excl, wg, dn, rt, rs, qk, gq, fresh⟩ := hA
   unfold stepLoop
   split
   · constructor <;> assumption
@@ -170,11 +170,36 @@ theorem invT_loop (cfg : Cfg) (s : St) (k : Nat) (hA : InvA s) (h : InvT s) : In
     simp only [hlt, if_false, hb]
     tr_auto
   · rename_i todo heq
-    exact absurd heq (lp.2 todo)
+    split
+    · split
+      · tr_auto
+      · constructor <;> assumption
+    · rename_i i hk
+      split
+      · rename_i hg
+        have hw : (s.reqs i).wg = 1 := by rw [wg i, hg.2]; simp
+        have hlt : ¬ ((s.reqs i).wg - 1 < 0) := by omega
+        have hc := tc i (Or.inr hg.1)
+        have hd : wasDone s.trace i = false := by
+          cases hx : wasDone s.trace i
+          · rfl
+          · have := (td i).1 hx; rw [hg.2] at this; cases this
+        have hb : (RResult.timeout == RResult.success) = false := by decide
+        unfold St.signal
+        simp only [hlt, if_false, hb]
+        tr_auto
+      · tr_auto
+
+theorem invT_cancel (s : St) (h : InvT s) : InvT (stepCancel s) := by
+  obtain ⟨tv, tq, tp, td, tc, tf, gt, pm⟩ := h
+  unfold stepCancel
+  split
+  · constructor <;> assumption
+  · tr_auto
 
 theorem invT_watcher (s : St) (k : Nat) (hA : InvA s) (h : InvT s) : InvT (stepWatcher s k) := by
   obtain ⟨tv, tq, tp, td, tc, tf, gt, pm⟩ := h
-  obtain ⟨nc, np, lp, own, excl, wg, dn, rt, rs, qk, gq, fresh⟩ := hA
+  obtain ⟨np, own, excl, wg, dn, rt, rs, qk, gq, fresh⟩ := hA
   unfold stepWatcher
   split
   · constructor <;> assumption
@@ -204,7 +229,7 @@ theorem invT_watcher (s : St) (k : Nat) (hA : InvA s) (h : InvT s) : InvT (stepW
     simp only [hlt, if_false, hb]
     tr_auto
 
-theorem invT_step (cfg : Cfg) (s : St) (a : Act) (ha : a ≠ .cancel) (hA : InvA s) (h : InvT s) :
+theorem invT_step (cfg : Cfg) (s : St) (a : Act) (hA : InvA s) (h : InvT s) :
     InvT (step cfg s a) := by
   unfold step
   rw [hA.np]
@@ -221,15 +246,12 @@ theorem invT_step (cfg : Cfg) (s : St) (a : Act) (ha : a ≠ .cancel) (hA : InvA
   | loopStep k => exact invT_loop cfg s k hA h
   | wScan => exact invT_scan cfg s h
   | wStep k => exact invT_watcher s k hA h
-  | cancel => exact absurd rfl ha
+  | cancel => exact invT_cancel s h
 
-theorem invAT_run (cfg : Cfg) (acts : List Act) (s : St) (hn : noCancel acts) (hA : InvA s) (hT : InvT s) :
+theorem invAT_run (cfg : Cfg) (acts : List Act) (s : St) (hA : InvA s) (hT : InvT s) :
     InvA (run cfg s acts) ∧ InvT (run cfg s acts) := by
   induction acts generalizing s with
   | nil => exact ⟨hA, hT⟩
-  | cons a rest ih =>
-    have ha : a ≠ .cancel := fun e => hn (by simp [e])
-    have hr : noCancel rest := fun e => hn (by simp [e])
-    exact ih (step cfg s a) hr (invA_step cfg s a ha hA) (invT_step cfg s a ha hA hT)
+  | cons a rest ih => exact ih (step cfg s a) (invA_step cfg s a hA) (invT_step cfg s a hA hT)
 
 end LunarVerif.C06
